@@ -591,6 +591,25 @@ func (a *AddrManager) updateManagedAddress(dbTransaction db.DBTransaction, manag
 	return nil
 }
 
+func (a *AddrManager) forgetAddress(ma *ManagedAddress) {
+	a.mu.Lock()
+	defer a.mu.Unlock()
+	if cur, ok := a.addrs[ma.address]; !ok || cur != ma {
+		return
+	}
+	delete(a.addrs, ma.address)
+	if a.index[ma.derivationPath.Index] == ma.address {
+		delete(a.index, ma.derivationPath.Index)
+	}
+	if ma.derivationPath.Branch == InternalBranch {
+		if a.branchInfo.nextInternalIndex > ma.derivationPath.Index {
+			a.branchInfo.nextInternalIndex = ma.derivationPath.Index
+		}
+	} else if a.branchInfo.nextExternalIndex > ma.derivationPath.Index {
+		a.branchInfo.nextExternalIndex = ma.derivationPath.Index
+	}
+}
+
 func (a *AddrManager) getPrivKeyBtcec(addr string, password []byte) (*btcec.PrivateKey, error) {
 	// get address index
 	mAddr, ok := a.addrs[addr]
